@@ -70,17 +70,27 @@ func TestDrv_C20(t *testing.T) {
 							few = 1 // few label sets: each series sees many results
 						}
 						urls := []string{"http://a/", "http://b/x?y=1"}
+						if cases%5 == 3 { // a URL that is another one plus digits, with status codes that make up the difference
+							urls = []string{"http://10.0.0.1:80", "http://10.0.0.1:8020"}
+						}
 						if cases%4 == 2 { // many label sets
 							urls = []string{fmt.Sprintf("http://h%d/", r.Intn(40)), fmt.Sprintf("http://a/p/%d", r.Intn(40))}
 						}
 						code := []uint16{200, 404, 0, 500}[r.Intn(2*few)]
+						if cases%5 == 3 {
+							code = []uint16{200, 0, 20, 2000}[r.Intn(4)]
+						}
 						if n == 1000 && concurrent == (round%2 == 0) { // every status code a server can send, and every change in the number of digits
 							code = uint16(100 + i%500)
 							if i%50 == 7 {
 								code = []uint16{0, 1, 9, 10, 99, 999, 1000, 9999, 10000, 65535}[r.Intn(10)]
 							}
 						}
-						rs[i] = vegeta.Result{Method: []string{"GET", "POST"}[r.Intn(few)], URL: urls[r.Intn(few)],
+						ui := r.Intn(few)
+						if cases%5 == 3 {
+							ui = r.Intn(2)
+						}
+						rs[i] = vegeta.Result{Method: []string{"GET", "POST"}[r.Intn(few)], URL: urls[ui],
 							Code: code, BytesIn: uint64(r.Intn(1 << 20)), BytesOut: uint64(r.Intn(1 << 10)), Latency: lat, Error: e}
 					}
 					observe := func(x *vegeta.Result) {
